@@ -259,7 +259,7 @@ Lemma is_base_h_S : forall f' w h mi name, is_base_h (S f') w h mi name =
     end.
 Proof. reflexivity. Qed.
 
-Lemma perform_test_S : forall d f' w h mi name, perform_test d (S f') w h mi name =
+Lemma perform_test_S : forall fx d f' w h mi name, perform_test fx d (S f') w h mi name =
     match lookup w mi name with
     | None => Crash
     | Some (Import mj r) =>
@@ -268,13 +268,16 @@ Lemma perform_test_S : forall d f' w h mi name, perform_test d (S f') w h mi nam
         | Some _ =>
             let e := new_epoch h mi mj in
             if import_cycle w h e then Ok None
-            else perform_test d f' w (e :: h) mj r
+            else match perform_test fx d f' w (e :: h) mj r with
+                 | Ok (Some h') => Ok (Some (if fx_pop fx then tl h' else h'))
+                 | x => x
+                 end
         end
     | Some (Defs l) =>
         fold_opt (fun c h =>
           if is_std_name (uc_ref c) then Ok (Some h)
           else match lookup w mi (uc_ref c) with
-               | Some _ => perform_test d f' w h mi (uc_ref c)
+               | Some _ => perform_test fx d f' w h mi (uc_ref c)
                | None => Ok (if d then None else Some h)
                end) l h
     end.
@@ -325,10 +328,10 @@ Proof. reflexivity. Qed.
 
 (* ------------------------------------------------------------------ the library's "defined" implies fully defined *)
 
-Lemma perform_test_sound : forall f w h mi name h',
-  perform_test true f w h mi name = Ok (Some h') -> defined_sem f w mi name = Ok true.
+Lemma perform_test_sound : forall fx f w h mi name h',
+  perform_test fx true f w h mi name = Ok (Some h') -> defined_sem f w mi name = Ok true.
 Proof.
-  induction f as [|f' IH]; intros w h mi name h' H; [discriminate|].
+  intros fx. induction f as [|f' IH]; intros w h mi name h' H; [discriminate|].
   rewrite perform_test_S in H. rewrite defined_sem_S.
   destruct (lookup w mi name) as [[l|mj r]|] eqn:Hl; [| |discriminate].
   - apply forall_res_true. clear Hl. revert h H. induction l as [|c rest IHl]; intros h H a Hin; [destruct Hin|].
@@ -336,20 +339,21 @@ Proof.
     destruct (is_std_name (uc_ref c)) eqn:Hstd.
     + destruct Hin as [<-|Hin]; [rewrite Hstd; reflexivity|]. apply (IHl h H a Hin).
     + destruct (lookup w mi (uc_ref c)) as [d|] eqn:Hlc; [|discriminate].
-      destruct (perform_test true f' w h mi (uc_ref c)) as [[h1|]| |] eqn:Hp; try discriminate.
+      destruct (perform_test fx true f' w h mi (uc_ref c)) as [[h1|]| |] eqn:Hp; try discriminate.
       destruct Hin as [<-|Hin].
       * rewrite Hstd, Hlc. apply (IH w h mi (uc_ref c) h1 Hp).
       * apply (IHl h1 H a Hin).
   - destruct (lookup w mj r) as [d|] eqn:Hlt; [|discriminate].
     cbv zeta in H. destruct (import_cycle w h (new_epoch h mi mj)); [discriminate|].
-    apply (IH w _ mj r h' H).
+    destruct (perform_test fx true f' w (new_epoch h mi mj :: h) mj r) as [[h1|]| |] eqn:Hp; try discriminate.
+    apply (IH w _ mj r h1 Hp).
 Qed.
 
-Lemma is_defined_sound : forall f w mi name, is_defined f w mi name = Ok true -> defined_sem f w mi name = Ok true.
+Lemma is_defined_sound : forall fx f w mi name, is_defined fx f w mi name = Ok true -> defined_sem f w mi name = Ok true.
 Proof.
-  intros f w mi name H. unfold is_defined, test_result in H.
-  destruct (perform_test true f w [] mi name) as [[h'|]| |] eqn:Hp; try discriminate.
-  apply (perform_test_sound f w [] mi name h' Hp).
+  intros fx f w mi name H. unfold is_defined, test_result in H.
+  destruct (perform_test fx true f w [] mi name) as [[h'|]| |] eqn:Hp; try discriminate.
+  apply (perform_test_sound fx f w [] mi name h' Hp).
 Qed.
 
 (* ------------------------------------------------------------------ defined units have a map *)
@@ -430,7 +434,7 @@ Proof.
   apply wfmap_filter. apply (umap_go_wf _ _ _ _ _ _ _ _ wfmap_nil Hg).
 Qed.
 
-Lemma defined_map_ok : forall fx f w u, is_defined f w (fst u) (snd u) = Ok true ->
+Lemma defined_map_ok : forall fx f w u, is_defined fx f w (fst u) (snd u) = Ok true ->
   exists m, define_units_map fx f w u = Ok m.
 Proof.
   intros fx f w u H. apply is_defined_sound in H.
@@ -442,14 +446,14 @@ Qed.
 
 Lemma compatible_spec : forall fx f w a b,
   compatible fx f w (Some a) (Some b) = Ok true <->
-  is_defined f w (fst a) (snd a) = Ok true /\ is_defined f w (fst b) (snd b) = Ok true /\
+  is_defined fx f w (fst a) (snd a) = Ok true /\ is_defined fx f w (fst b) (snd b) = Ok true /\
   exists ma mb, define_units_map fx f w a = Ok ma /\ define_units_map fx f w b = Ok mb /\
                 forall k, get ma k == get mb k.
 Proof.
   intros fx f w a b. unfold compatible. split.
   - intros H.
-    destruct (is_defined f w (fst a) (snd a)) as [[|]| |]; try discriminate.
-    destruct (is_defined f w (fst b) (snd b)) as [[|]| |]; try discriminate.
+    destruct (is_defined fx f w (fst a) (snd a)) as [[|]| |]; try discriminate.
+    destruct (is_defined fx f w (fst b) (snd b)) as [[|]| |]; try discriminate.
     destruct (define_units_map fx f w a) as [ma| |] eqn:Ha; try discriminate.
     destruct (define_units_map fx f w b) as [mb| |] eqn:Hb; try discriminate.
     injection H as H. split; [reflexivity|]. split; [reflexivity|]. exists ma, mb. split; [reflexivity|]. split; [reflexivity|].
@@ -462,7 +466,7 @@ Qed.
 
 (** compatible holds iff both are defined and the cleaned exponent maps are extensionally equal. *)
 Lemma compatible_iff_same_maps : forall fx f w a b ma mb,
-  is_defined f w (fst a) (snd a) = Ok true -> is_defined f w (fst b) (snd b) = Ok true ->
+  is_defined fx f w (fst a) (snd a) = Ok true -> is_defined fx f w (fst b) (snd b) = Ok true ->
   define_units_map fx f w a = Ok ma -> define_units_map fx f w b = Ok mb ->
   (compatible fx f w (Some a) (Some b) = Ok true <-> forall k, get ma k == get mb k).
 Proof.
@@ -472,7 +476,7 @@ Proof.
   - intros Hext. split; [exact Da|]. split; [exact Db|]. exists ma, mb. auto.
 Qed.
 
-Lemma compatible_refl : forall fx f w a, is_defined f w (fst a) (snd a) = Ok true ->
+Lemma compatible_refl : forall fx f w a, is_defined fx f w (fst a) (snd a) = Ok true ->
   compatible fx f w (Some a) (Some a) = Ok true.
 Proof.
   intros fx f w a Da. apply compatible_spec. split; [exact Da|]. split; [exact Da|].
@@ -501,7 +505,7 @@ Qed.
 
 (* compatible never holds for nullptr or undefined units *)
 Lemma compatible_true_defined : forall fx f w a b, compatible fx f w a b = Ok true ->
-  exists a' b', a = Some a' /\ b = Some b' /\ is_defined f w (fst a') (snd a') = Ok true /\ is_defined f w (fst b') (snd b') = Ok true.
+  exists a' b', a = Some a' /\ b = Some b' /\ is_defined fx f w (fst a') (snd a') = Ok true /\ is_defined fx f w (fst b') (snd b') = Ok true.
 Proof.
   intros fx f w [a|] [b|] H; try (cbn in H; discriminate).
   apply compatible_spec in H. destruct H as [Da [Db _]]. exists a, b. auto.
@@ -556,8 +560,8 @@ Lemma factor_zero_null : forall fx f w a b, a = None \/ b = None -> scaling_fact
 Proof. intros fx f w a b [->| ->]; [|destruct a]; reflexivity. Qed.
 
 Lemma factor_zero_undefined : forall fx f w a b,
-  is_defined f w (fst a) (snd a) = Ok false \/
-  (is_defined f w (fst a) (snd a) = Ok true /\ is_defined f w (fst b) (snd b) = Ok false) ->
+  is_defined fx f w (fst a) (snd a) = Ok false \/
+  (is_defined fx f w (fst a) (snd a) = Ok true /\ is_defined fx f w (fst b) (snd b) = Ok false) ->
   scaling_factor fx f w (Some a) (Some b) = Ok FZero.
 Proof.
   intros fx f w a b H. apply factor_zero_incompatible. unfold compatible.
@@ -923,7 +927,7 @@ Qed.
 (** ... and so is compatible, as long as the library still calls both units defined (isDefined() itself depends on the order). *)
 Lemma compatible_perm_partial : forall fx f w w' a b, perm_world w w' ->
   compatible fx f w (Some a) (Some b) = Ok true ->
-  is_defined f w' (fst a) (snd a) = Ok true -> is_defined f w' (fst b) (snd b) = Ok true ->
+  is_defined fx f w' (fst a) (snd a) = Ok true -> is_defined fx f w' (fst b) (snd b) = Ok true ->
   compatible fx f w' (Some a) (Some b) = Ok true.
 Proof.
   intros fx f w w' a b PW H Da Db. apply compatible_spec in H.
@@ -991,7 +995,7 @@ Qed.
 
 (** With the import exponent passed on (or without imports), the cleaned map of a defined units is its dimension. *)
 Lemma map_is_dimension : forall fx f w u, fx_import fx = true \/ import_free w ->
-  is_defined f w (fst u) (snd u) = Ok true ->
+  is_defined fx f w (fst u) (snd u) = Ok true ->
   exists m, define_units_map fx f w u = Ok m /\
             forall k, k <> "dimensionless" -> get m k == dim f w (fst u) (snd u) k.
 Proof.
@@ -1004,7 +1008,7 @@ Proof.
 Qed.
 
 Lemma compatible_iff_same_exponents : forall fx f w a b, fx_import fx = true \/ import_free w ->
-  is_defined f w (fst a) (snd a) = Ok true -> is_defined f w (fst b) (snd b) = Ok true ->
+  is_defined fx f w (fst a) (snd a) = Ok true -> is_defined fx f w (fst b) (snd b) = Ok true ->
   (compatible fx f w (Some a) (Some b) = Ok true <->
    forall k, k <> "dimensionless" -> dim f w (fst a) (snd a) k == dim f w (fst b) (snd b) k).
 Proof.
@@ -1035,20 +1039,20 @@ Definition w_import : world :=
 
 Lemma compatible_iff_same_exponents_refuted :
   exists f w a b,
-    is_defined f w (fst a) (snd a) = Ok true /\ is_defined f w (fst b) (snd b) = Ok true /\
+    is_defined unfixed f w (fst a) (snd a) = Ok true /\ is_defined unfixed f w (fst b) (snd b) = Ok true /\
     (forall k, k <> "dimensionless" -> dim f w (fst a) (snd a) k == dim f w (fst b) (snd b) k) /\
     compatible unfixed f w (Some a) (Some b) = Ok false.
 Proof.
   exists 5%nat, w_import, (0%nat, "I2"), (0%nat, "m2").
-  assert (Da : is_defined 5 w_import 0 "I2" = Ok true) by (vm_compute; reflexivity).
-  assert (Db : is_defined 5 w_import 0 "m2" = Ok true) by (vm_compute; reflexivity).
-  split; [exact Da|]. split; [exact Db|]. split; [|vm_compute; reflexivity].
+  assert (Da : is_defined all_fixed 5 w_import 0 "I2" = Ok true) by (vm_compute; reflexivity).
+  assert (Db : is_defined all_fixed 5 w_import 0 "m2" = Ok true) by (vm_compute; reflexivity).
+  split; [vm_compute; reflexivity|]. split; [vm_compute; reflexivity|]. split; [|vm_compute; reflexivity].
   apply (compatible_iff_same_exponents all_fixed 5 w_import (0%nat, "I2") (0%nat, "m2") (or_introl eq_refl) Da Db).
   vm_compute. reflexivity.
 Qed.
 
 Lemma map_indirection_refuted :
-  exists f w u m, is_defined f w (fst u) (snd u) = Ok true /\ define_units_map unfixed f w u = Ok m /\
+  exists f w u m, is_defined unfixed f w (fst u) (snd u) = Ok true /\ define_units_map unfixed f w u = Ok m /\
                   ~ get m "metre" == dim f w (fst u) (snd u) "metre".
 Proof.
   exists 5%nat, w_import, (0%nat, "I2"). eexists. split; [vm_compute; reflexivity|]. split; [vm_compute; reflexivity|].
@@ -1063,18 +1067,18 @@ Definition w_order (swap : bool) : world :=
     [("B1", Defs [])] ].
 
 Lemma compatible_perm_refuted :
-  exists fx f w mi n l l' u,
+  exists f w mi n l l' u,
     lookup w mi n = Some (Defs l) /\ Permutation l l' /\
-    compatible fx f (set_units w mi n (Defs l')) (Some u) (Some u) = Ok true /\
-    compatible fx f w (Some u) (Some u) = Ok false /\
+    compatible unfixed f (set_units w mi n (Defs l')) (Some u) (Some u) = Ok true /\
+    compatible unfixed f w (Some u) (Some u) = Ok false /\
     defined_sem f w (fst u) (snd u) = Ok true.
 Proof.
-  exists unfixed, 6%nat, (w_order false), 0%nat, "u", [mk "A" "" 1 0; mk "B" "" 1 0], [mk "B" "" 1 0; mk "A" "" 1 0], (0%nat, "u").
+  exists 6%nat, (w_order false), 0%nat, "u", [mk "A" "" 1 0; mk "B" "" 1 0], [mk "B" "" 1 0; mk "A" "" 1 0], (0%nat, "u").
   split; [reflexivity|]. split; [apply perm_swap|]. split; [vm_compute; reflexivity|]. split; vm_compute; reflexivity.
 Qed.
 
 Lemma is_defined_complete_refuted :
-  exists f w mi n, defined_sem f w mi n = Ok true /\ is_defined f w mi n = Ok false.
+  exists f w mi n, defined_sem f w mi n = Ok true /\ is_defined unfixed f w mi n = Ok false.
 Proof. exists 6%nat, (w_order false), 0%nat, "u". split; vm_compute; reflexivity. Qed.
 
 (* ------------------------------------------------------------------ the scale is the SI scale under the property's condition *)
@@ -1083,7 +1087,7 @@ Lemma mult_go_S : forall fx f' w mi name, mult_go fx (S f') w mi name =
     match lookup w mi name with
     | None => Crash
     | Some (Import mj r) =>
-        match is_resolved (S f') w mi name with
+        match is_resolved fx (S f') w mi name with
         | Ok true =>
             match lookup w mj r with
             | None => Crash
@@ -1196,7 +1200,7 @@ Proof.
             rewrite (IHc Hc Hi _ _ Hf). rewrite <- (si_term_eq inside _ _ _ _ Hcond).
             rewrite <- (IH mi (uc_ref c) b Hc3 Hi1 Hb). ring. }
       rewrite (G 0 l Hm). cbv zeta. ring.
-  - destruct (is_resolved (S f') w mi n) as [[|]| |]; try discriminate.
+  - destruct (is_resolved fx (S f') w mi n) as [[|]| |]; try discriminate.
     destruct (lookup w mj r) as [d|]; [|discriminate].
     destruct (mult_go fx f' w mj r) as [[b|]| |] eqn:Hb; try discriminate.
     injection Hm as <-. rewrite <- (IH mj r b Hc Hi Hb). ring.
@@ -1646,9 +1650,9 @@ Proof.
   apply (deep_S w f' mi n mj r (some_neq_none _ _ Hl) (refers_import w mi n mj r Hl)). apply (IH _ _ _ H).
 Qed.
 
-Lemma perform_test_deep : forall w d f h mi n, perform_test d f w h mi n = OutOfFuel -> deep w f mi n.
+Lemma perform_test_deep : forall fx w d f h mi n, perform_test fx d f w h mi n = OutOfFuel -> deep w f mi n.
 Proof.
-  intros w d. induction f as [|f' IH]; intros h mi n H; [apply deep_O|].
+  intros fx w d. induction f as [|f' IH]; intros h mi n H; [apply deep_O|].
   rewrite perform_test_S in H. destruct (lookup w mi n) as [[l|mj r]|] eqn:Hl; try discriminate.
   - apply fold_opt_oof in H. destruct H as [c [h' [Hin Hc]]].
     destruct (is_std_name (uc_ref c)) eqn:Hs; [discriminate|].
@@ -1656,7 +1660,8 @@ Proof.
     apply (deep_S w f' mi n mi (uc_ref c) (some_neq_none _ _ Hl) (refers_child w mi n l c Hl Hin Hs)). apply (IH _ _ _ Hc).
   - destruct (lookup w mj r) eqn:Ht; [|discriminate]. cbv zeta in H.
     destruct (import_cycle w h (new_epoch h mi mj)); [discriminate|].
-    apply (deep_S w f' mi n mj r (some_neq_none _ _ Hl) (refers_import w mi n mj r Hl)). apply (IH _ _ _ H).
+    destruct (perform_test fx d f' w (new_epoch h mi mj :: h) mj r) as [[h1|]| |] eqn:Hp; try discriminate.
+    apply (deep_S w f' mi n mj r (some_neq_none _ _ Hl) (refers_import w mi n mj r Hl)). apply (IH _ _ _ Hp).
 Qed.
 
 Lemma umap_go_deep : forall fx w f mi n e acc, umap_go fx f w mi n e acc = OutOfFuel -> deep w f mi n.
@@ -1688,11 +1693,11 @@ Proof.
     destruct (lookup w mi (uc_ref c)) eqn:Ht; [|discriminate].
     destruct (mult_go fx f' w mi (uc_ref c)) as [[b|]| |] eqn:Hb; try discriminate.
     apply (deep_S w f' mi n mi (uc_ref c) (some_neq_none _ _ Hl) (refers_child w mi n l c Hl Hin Hs)). apply (IH _ _ Hb).
-  - destruct (is_resolved (S f') w mi n) as [[|]| |] eqn:Hr; try discriminate.
+  - destruct (is_resolved fx (S f') w mi n) as [[|]| |] eqn:Hr; try discriminate.
     + destruct (lookup w mj r) eqn:Ht; [|discriminate].
       destruct (mult_go fx f' w mj r) as [[b|]| |] eqn:Hb; try discriminate.
       apply (deep_S w f' mi n mj r (some_neq_none _ _ Hl) (refers_import w mi n mj r Hl)). apply (IH _ _ Hb).
-    + unfold is_resolved in Hr. apply test_result_oof in Hr. apply (perform_test_deep w false (S f') [] mi n Hr).
+    + unfold is_resolved in Hr. apply test_result_oof in Hr. apply (perform_test_deep fx w false (S f') [] mi n Hr).
 Qed.
 
 Lemma at_add_std_not_oof : forall n d m, at_add_std n d m <> OutOfFuel.
@@ -1862,22 +1867,22 @@ Qed.
 Lemma reducers_terminate : forall fx f w, acyclic w -> (world_size w < f)%nat ->
   (forall a b, compatible fx f w a b <> OutOfFuel /\ scaling_factor fx f w a b <> OutOfFuel /\ equivalent fx f w a b <> OutOfFuel) /\
   (forall mi n1 n2, val_equiv f w mi n1 n2 <> OutOfFuel /\ ana_equiv f w mi n1 n2 <> OutOfFuel) /\
-  (forall mi n, is_base f w mi n <> OutOfFuel /\ is_defined f w mi n <> OutOfFuel /\
+  (forall mi n, is_base f w mi n <> OutOfFuel /\ is_defined fx f w mi n <> OutOfFuel /\
                 define_units_map fx f w (mi, n) <> OutOfFuel /\ mult_go fx f w mi n <> OutOfFuel).
 Proof.
   intros fx f w Hac Hf.
   assert (ND : forall mi n, ~ deep w f mi n) by (intros mi n; apply acyclic_not_deep; assumption).
   assert (B : forall mi n, is_base f w mi n <> OutOfFuel) by (intros mi n H; apply (ND mi n), (is_base_h_deep w f [] mi n H)).
-  assert (D : forall mi n, is_defined f w mi n <> OutOfFuel).
-  { intros mi n H. unfold is_defined in H. apply test_result_oof in H. apply (ND mi n), (perform_test_deep w true f [] mi n H). }
+  assert (D : forall mi n, is_defined fx f w mi n <> OutOfFuel).
+  { intros mi n H. unfold is_defined in H. apply test_result_oof in H. apply (ND mi n), (perform_test_deep fx w true f [] mi n H). }
   assert (M : forall u, define_units_map fx f w u <> OutOfFuel).
   { intros u H. unfold define_units_map in H. destruct (umap_go fx f w (fst u) (snd u) 1 []) eqn:Hg; try discriminate.
     apply (ND (fst u) (snd u)), (umap_go_deep fx w f _ _ _ _ Hg). }
   assert (U : forall mi n, mult_go fx f w mi n <> OutOfFuel) by (intros mi n H; apply (ND mi n), (mult_go_deep fx w f mi n H)).
   assert (C : forall a b, compatible fx f w a b <> OutOfFuel).
   { intros [a|] [b|] H; try discriminate. unfold compatible in H.
-    destruct (is_defined f w (fst a) (snd a)) as [[|]| |] eqn:Da; try discriminate; [|apply (D _ _ Da)].
-    destruct (is_defined f w (fst b) (snd b)) as [[|]| |] eqn:Db; try discriminate; [|apply (D _ _ Db)].
+    destruct (is_defined fx f w (fst a) (snd a)) as [[|]| |] eqn:Da; try discriminate; [|apply (D _ _ Da)].
+    destruct (is_defined fx f w (fst b) (snd b)) as [[|]| |] eqn:Db; try discriminate; [|apply (D _ _ Db)].
     destruct (define_units_map fx f w a) eqn:Ma; try discriminate; [|apply (M _ Ma)].
     destruct (define_units_map fx f w b) eqn:Mb; try discriminate. apply (M _ Mb). }
   assert (SF : forall a b, scaling_factor fx f w a b <> OutOfFuel).
@@ -1911,10 +1916,10 @@ Qed.
 
 (* ------------------------------------------------------------------ isDefined is complete without imports *)
 
-Lemma perform_test_import_free : forall w, import_free w -> forall f h mi n,
-  defined_sem f w mi n = Ok true -> perform_test true f w h mi n = Ok (Some h).
+Lemma perform_test_import_free : forall fx w, import_free w -> forall f h mi n,
+  defined_sem f w mi n = Ok true -> perform_test fx true f w h mi n = Ok (Some h).
 Proof.
-  intros w Hfree. induction f as [|f' IH]; intros h mi n H; [discriminate|].
+  intros fx w Hfree. induction f as [|f' IH]; intros h mi n H; [discriminate|].
   pose proof H as H0. rewrite defined_sem_S in H. rewrite perform_test_S.
   destruct (lookup w mi n) as [[l|mj r]|] eqn:Hl; [| |discriminate].
   - rewrite forall_res_true in H. clear Hl H0. induction l as [|c rest IHl]; [reflexivity|].
@@ -1926,10 +1931,10 @@ Proof.
   - exfalso. apply (Hfree mi n mj r Hl).
 Qed.
 
-Lemma is_defined_complete_partial : forall f w mi n, import_free w ->
-  defined_sem f w mi n = Ok true -> is_defined f w mi n = Ok true.
+Lemma is_defined_complete_partial : forall fx f w mi n, import_free w ->
+  defined_sem f w mi n = Ok true -> is_defined fx f w mi n = Ok true.
 Proof.
-  intros f w mi n Hfree H. unfold is_defined. rewrite (perform_test_import_free w Hfree f [] mi n H). reflexivity.
+  intros fx f w mi n Hfree H. unfold is_defined. rewrite (perform_test_import_free fx w Hfree f [] mi n H). reflexivity.
 Qed.
 
 (* ------------------------------------------------------------------ the defining equations of the dimension (indirection) *)
@@ -1972,7 +1977,7 @@ Lemma nonvacuous :
   equivalent unfixed 5 w_mm (Some (0%nat, "mm2")) (Some (0%nat, "mm2")) = Ok true /\
   agree_cond 5 w_mm 0 "mm" = true /\ si_cond 5 w_mm 0 "mm" = true /\ imports_scale_ok unfixed 5 w_mm 0 "mm" = true /\
   acyclic w_mm /\ (world_size w_mm < 5)%nat /\ import_free w_mm /\ no_bare_std_scaled w_mm /\
-  is_defined 5 w_import 0 "I2" = Ok true.
+  is_defined unfixed 5 w_import 0 "I2" = Ok true.
 Proof.
   repeat (split; [vm_compute; reflexivity|]). split; [exact acyclic_w_mm|]. split; [vm_compute; lia|]. split; [|split].
   - intros mi n a b H. destruct mi as [|[|mi]]; cbn in H; try discriminate.
@@ -2076,12 +2081,12 @@ Qed.
 (** Without imports and with no units named after a standard unit, the validator's verdict for two defined units of a model
     is Units::compatible. *)
 Lemma val_verdict_agrees_partial : forall fx f w mi n1 n2, import_free w -> nonstd_names w ->
-  is_defined f w mi n1 = Ok true -> is_defined f w mi n2 = Ok true ->
+  is_defined fx f w mi n1 = Ok true -> is_defined fx f w mi n2 = Ok true ->
   exists st q, val_equiv f w mi n1 n2 = Ok (st, q) /\
                (st = true <-> compatible fx f w (Some (mi, n1)) (Some (mi, n2)) = Ok true).
 Proof.
   intros fx f w mi n1 n2 Hfree Hns D1 D2.
-  pose proof (is_defined_sound _ _ _ _ D1) as S1. pose proof (is_defined_sound _ _ _ _ D2) as S2.
+  pose proof (is_defined_sound _ _ _ _ _ D1) as S1. pose proof (is_defined_sound _ _ _ _ _ D2) as S2.
   destruct (defined_lookup _ _ _ _ S1) as [d1 L1]. destruct (defined_lookup _ _ _ _ S2) as [d2 L2].
   set (s0 := (map (fun b : string => (b, 0)) base_units_list, 0) : vstate).
   assert (P0 : has_base (fst s0) /\ wfmap (fst s0)) by (split; [apply has_base_init|apply wfmap_init]).
@@ -2105,3 +2110,209 @@ Proof.
   - intros H k Hk. specialize (H k Hk). rewrite G in H. rewrite <- (Qplus_0_l (dim f w mi n2 k)), <- H. ring.
   - intros H k Hk. rewrite G, (H k Hk). ring.
 Qed.
+
+(* ------------------------------------------------------------------ the import history once it is popped (fx_pop, 94d567f) *)
+
+Lemma fold_opt_same_state : forall {A S} (step : A -> S -> res (option S)) l s s',
+  (forall c x x', In c l -> step c x = Ok (Some x') -> x' = x) ->
+  fold_opt step l s = Ok (Some s') -> s' = s /\ forall c, In c l -> step c s = Ok (Some s).
+Proof.
+  intros A S step l. induction l as [|a r IH]; intros s s' Hst H.
+  - cbn in H. injection H as <-. split; [reflexivity|intros c []].
+  - cbn [fold_opt] in H. destruct (step a s) as [[s1|]| |] eqn:Ha; try discriminate.
+    pose proof (Hst a s s1 (or_introl eq_refl) Ha) as ->.
+    destruct (IH s s' (fun c x x' Hin => Hst c x x' (or_intror Hin)) H) as [-> Hall].
+    split; [reflexivity|]. intros c [<-|Hin]; [exact Ha|apply Hall; exact Hin].
+Qed.
+
+Lemma fold_opt_build : forall {A S} (step : A -> S -> res (option S)) l s,
+  (forall c, In c l -> step c s = Ok (Some s)) -> fold_opt step l s = Ok (Some s).
+Proof.
+  intros A S step l s. induction l as [|a r IH]; intros H; [reflexivity|].
+  cbn [fold_opt]. rewrite (H a (or_introl eq_refl)). apply IH. intros c Hin. apply H. right. exact Hin.
+Qed.
+
+(* with the pop, a successful test leaves the history as it found it *)
+Lemma perform_test_state : forall fx d, fx_pop fx = true -> forall f w h mi n h',
+  perform_test fx d f w h mi n = Ok (Some h') -> h' = h.
+Proof.
+  intros fx d Hpop. induction f as [|f' IH]; intros w h mi n h' H; [discriminate|].
+  rewrite perform_test_S in H. destruct (lookup w mi n) as [[l|mj r]|]; [| |discriminate].
+  - apply fold_opt_same_state in H; [apply H|].
+    intros c x x' _ Hc. destruct (is_std_name (uc_ref c)); [injection Hc as <-; reflexivity|].
+    destruct (lookup w mi (uc_ref c)); [apply (IH _ _ _ _ _ Hc)|].
+    destruct d; [discriminate|injection Hc as <-; reflexivity].
+  - destruct (lookup w mj r); [|discriminate]. cbv zeta in H.
+    destruct (import_cycle w h (new_epoch h mi mj)); [discriminate|].
+    destruct (perform_test fx d f' w (new_epoch h mi mj :: h) mj r) as [[h1|]| |] eqn:Hp; try discriminate.
+    rewrite Hpop in H. injection H as <-. rewrite (IH _ _ _ _ _ Hp). reflexivity.
+Qed.
+
+(* every epoch of the history lies (weakly) below the model being visited *)
+Definition hist_below (rk : nat -> nat) (h : hist) (mi : nat) : Prop :=
+  forall x, In x h -> (rk (ep_srcmodel x) <= rk mi)%nat /\ (rk (ep_dst x) <= rk mi)%nat /\
+                      forall s, ep_src x = Some s -> (rk s <= rk mi)%nat.
+
+Lemma importee_url_in : forall h url s, importee_url h url = Some s -> exists x, In x h /\ ep_dst x = s.
+Proof.
+  intros h url s H. unfold importee_url in H.
+  destruct (find (fun e => negb (Nat.eqb (ep_dst e) url)) h) as [e|] eqn:Hf; [|discriminate].
+  injection H as <-. apply find_some in Hf. exists e. split; [apply Hf|reflexivity].
+Qed.
+
+Lemma no_cycle_below : forall rk w h mi mj, hist_below rk h mi -> (rk mi < rk mj)%nat ->
+  import_cycle w h (new_epoch h mi mj) = false.
+Proof.
+  intros rk w h mi mj Hb Hlt. unfold import_cycle. cbn [ep_dst new_epoch].
+  apply not_true_is_false. intros H. apply existsb_exists in H. destruct H as [x [Hin Hx]].
+  destruct (Hb x Hin) as [B1 [B2 B3]]. apply orb_prop in Hx. destruct Hx as [Hx|Hx].
+  - unfold opt_nat_eqb in Hx. destruct (ep_src x) as [s|] eqn:Hs; [|discriminate].
+    apply Nat.eqb_eq in Hx. subst s. specialize (B3 mj eq_refl). lia.
+  - apply andb_prop in Hx. destruct Hx as [Hx _]. apply andb_prop in Hx. destruct Hx as [_ Hx].
+    apply Nat.eqb_eq in Hx. rewrite Hx in B1. lia.
+Qed.
+
+Lemma hist_below_push : forall rk h mi mj, hist_below rk h mi -> (rk mi < rk mj)%nat ->
+  hist_below rk (new_epoch h mi mj :: h) mj.
+Proof.
+  intros rk h mi mj Hb Hlt x [<-|Hin].
+  - cbn [new_epoch ep_srcmodel ep_dst ep_src]. split; [lia|]. split; [lia|].
+    intros s Hs. apply importee_url_in in Hs. destruct Hs as [y [Hy <-]]. destruct (Hb y Hy) as [_ [B2 _]]. lia.
+  - destruct (Hb x Hin) as [B1 [B2 B3]]. split; [lia|]. split; [lia|]. intros s Hs. specialize (B3 s Hs). lia.
+Qed.
+
+Lemma perform_test_dag : forall fx w rk, fx_pop fx = true ->
+  (forall mi n mj r, lookup w mi n = Some (Import mj r) -> (rk mi < rk mj)%nat) ->
+  forall f h mi n, hist_below rk h mi -> defined_sem f w mi n = Ok true ->
+  perform_test fx true f w h mi n = Ok (Some h).
+Proof.
+  intros fx w rk Hpop Hdag. induction f as [|f' IH]; intros h mi n Hb H; [discriminate|].
+  pose proof H as H0. rewrite defined_sem_S in H. rewrite perform_test_S.
+  destruct (lookup w mi n) as [[l|mj r]|] eqn:Hl; [| |discriminate].
+  - rewrite forall_res_true in H. apply fold_opt_build. intros c Hin. specialize (H c Hin).
+    destruct (is_std_name (uc_ref c)); [reflexivity|].
+    destruct (lookup w mi (uc_ref c)); [|discriminate]. apply IH; assumption.
+  - destruct (lookup w mj r) as [d|] eqn:Ht; [|discriminate]. cbv zeta.
+    pose proof (Hdag mi n mj r Hl) as Hlt.
+    rewrite (no_cycle_below rk w h mi mj Hb Hlt).
+    rewrite (IH _ mj r (hist_below_push rk h mi mj Hb Hlt) H). rewrite Hpop. reflexivity.
+Qed.
+
+(** With the history popped, isDefined() is exactly "every reference resolves", as long as the models import from one
+    another along a DAG. *)
+Lemma is_defined_complete : forall fx f w mi n, fx_pop fx = true -> model_dag w ->
+  defined_sem f w mi n = Ok true -> is_defined fx f w mi n = Ok true.
+Proof.
+  intros fx f w mi n Hpop [rk Hdag] H. unfold is_defined.
+  rewrite (perform_test_dag fx w rk Hpop Hdag f [] mi n); [reflexivity| |exact H].
+  intros x [].
+Qed.
+
+Lemma is_defined_iff : forall fx f w mi n, fx_pop fx = true -> model_dag w ->
+  (is_defined fx f w mi n = Ok true <-> defined_sem f w mi n = Ok true).
+Proof.
+  intros fx f w mi n Hpop Hdag. split; [apply is_defined_sound|apply is_defined_complete; assumption].
+Qed.
+
+(* the hypothesis model_dag is needed: acyclic units spread over two models that import from each other *)
+Definition w_mutual : world :=
+  [ [("u", Import 1 "A")]; [("A", Import 2 "B"); ("C", Defs [mk "metre" "" 1 0])]; [("B", Import 1 "C")] ].
+
+Lemma is_defined_needs_model_dag :
+  defined_sem 6 w_mutual 0 "u" = Ok true /\ is_defined all_fixed 6 w_mutual 0 "u" = Ok false.
+Proof. split; vm_compute; reflexivity. Qed.
+
+(* ... and no longer depends on the order of the unit children *)
+Lemma perm_world_sym : forall w w', perm_world w w' -> perm_world w' w.
+Proof.
+  intros w w' [Hlen Hp]. split; [symmetry; exact Hlen|]. intros mi n. specialize (Hp mi n). unfold perm_def in *.
+  destruct (lookup w mi n) as [[l|a b]|]; destruct (lookup w' mi n) as [[l'|a' b']|]; try contradiction; try exact I.
+  - apply Permutation_sym. exact Hp.
+  - destruct Hp as [-> ->]. split; reflexivity.
+Qed.
+
+Lemma perform_test_perm : forall fx d w w', fx_pop fx = true -> perm_world w w' ->
+  forall f h mi n, perform_test fx d f w h mi n = Ok (Some h) -> perform_test fx d f w' h mi n = Ok (Some h).
+Proof.
+  intros fx d w w' Hpop PW. pose proof PW as [Hlen Hp]. induction f as [|f' IH]; intros h mi n H; [discriminate|].
+  rewrite perform_test_S in *. pose proof (Hp mi n) as Hd. unfold perm_def in Hd.
+  destruct (lookup w mi n) as [[l|a b]|]; destruct (lookup w' mi n) as [[l'|a' b']|]; try contradiction; try discriminate.
+  - apply fold_opt_same_state in H.
+    + destruct H as [_ Hall]. apply fold_opt_build. intros c Hin.
+      specialize (Hall c (Permutation_in c (Permutation_sym Hd) Hin)). cbv beta in *.
+      destruct (is_std_name (uc_ref c)); [reflexivity|].
+      pose proof (Hp mi (uc_ref c)) as Hd2. pose proof (perm_def_none _ _ Hd2) as Hn.
+      destruct (lookup w mi (uc_ref c)) as [x|]; destruct (lookup w' mi (uc_ref c)) as [x'|].
+      * apply IH. exact Hall.
+      * destruct Hn as [_ Hn]. specialize (Hn eq_refl). discriminate.
+      * destruct Hn as [Hn _]. specialize (Hn eq_refl). discriminate.
+      * exact Hall.
+    + intros c x x' _ Hc. destruct (is_std_name (uc_ref c)); [injection Hc as <-; reflexivity|].
+      destruct (lookup w mi (uc_ref c)); [apply (perform_test_state fx d Hpop _ _ _ _ _ _ Hc)|].
+      destruct d; [discriminate|injection Hc as <-; reflexivity].
+  - destruct Hd as [<- <-].
+    pose proof (Hp a b) as Hd2. pose proof (perm_def_none _ _ Hd2) as Hn.
+    destruct (lookup w a b) as [x|]; [|discriminate].
+    destruct (lookup w' a b) as [x'|]; [|destruct Hn as [_ Hn]; specialize (Hn eq_refl); discriminate].
+    cbv zeta in *.
+    assert (Hc : import_cycle w' h (new_epoch h mi a) = import_cycle w h (new_epoch h mi a)).
+    { unfold import_cycle. rewrite Hlen. reflexivity. }
+    rewrite Hc. destruct (import_cycle w h (new_epoch h mi a)); [discriminate|].
+    destruct (perform_test fx d f' w (new_epoch h mi a :: h) a b) as [[h1|]| |] eqn:Hpt; try discriminate.
+    pose proof (perform_test_state fx d Hpop _ _ _ _ _ _ Hpt) as ->.
+    rewrite (IH _ _ _ Hpt). exact H.
+Qed.
+
+Lemma is_defined_perm : forall fx w w' f mi n, fx_pop fx = true -> perm_world w w' ->
+  is_defined fx f w mi n = Ok true -> is_defined fx f w' mi n = Ok true.
+Proof.
+  intros fx w w' f mi n Hpop PW H. unfold is_defined, test_result in *.
+  destruct (perform_test fx true f w [] mi n) as [[h'|]| |] eqn:Hp; try discriminate.
+  pose proof (perform_test_state fx true Hpop _ _ _ _ _ _ Hp) as ->.
+  rewrite (perform_test_perm fx true w w' Hpop PW f [] mi n Hp). reflexivity.
+Qed.
+
+(** compatible is independent of the order of the unit children of any units. *)
+Lemma compatible_perm_invariant : forall fx f w w' a b, fx_pop fx = true -> perm_world w w' ->
+  (compatible fx f w a b = Ok true <-> compatible fx f w' a b = Ok true).
+Proof.
+  assert (G : forall fx f w w' a b, fx_pop fx = true -> perm_world w w' ->
+              compatible fx f w a b = Ok true -> compatible fx f w' a b = Ok true).
+  { intros fx f w w' [a|] [b|] Hpop PW H; try (cbn in H; discriminate).
+    pose proof H as H0. apply compatible_spec in H0. destruct H0 as [Da [Db _]].
+    apply (compatible_perm_partial fx f w w' a b PW H); apply (is_defined_perm fx w w'); assumption. }
+  intros fx f w w' a b Hpop PW. split; [apply G; assumption|apply G; [exact Hpop|apply perm_world_sym; exact PW]].
+Qed.
+
+Lemma compatible_perm_set_units : forall fx f w mi0 n0 l l' a b, fx_pop fx = true ->
+  lookup w mi0 n0 = Some (Defs l) -> Permutation l l' ->
+  (compatible fx f w a b = Ok true <-> compatible fx f (set_units w mi0 n0 (Defs l')) a b = Ok true).
+Proof.
+  intros fx f w mi0 n0 l l' a b Hpop Hl P. apply compatible_perm_invariant; [exact Hpop|].
+  apply (perm_world_set_units w mi0 n0 l l' Hl P).
+Qed.
+
+(* the witnesses of the code before 94d567f are no witnesses any more *)
+Lemma order_witness_repaired :
+  compatible all_fixed 6 (w_order false) (Some (0%nat, "u")) (Some (0%nat, "u")) = Ok true /\
+  compatible all_fixed 6 (w_order true) (Some (0%nat, "u")) (Some (0%nat, "u")) = Ok true.
+Proof. split; vm_compute; reflexivity. Qed.
+
+Lemma model_dag_w_order : forall b, model_dag (w_order b).
+Proof.
+  intros b. exists (fun x => x). intros mi n mj r H.
+  destruct mi as [|[|[|mi]]]; unfold lookup, w_order in H; cbn [nth_error assoc] in H; try discriminate.
+  - destruct (String.eqb n "A"); [injection H as <- _; lia|].
+    destruct (String.eqb n "B"); [injection H as <- _; lia|].
+    destruct (String.eqb n "u"); [destruct b; discriminate|discriminate].
+  - destruct (String.eqb n "I3"); [injection H as <- _; lia|].
+    destruct (String.eqb n "X"); discriminate.
+  - destruct (String.eqb n "B1"); discriminate.
+  - destruct mi; discriminate.
+Qed.
+
+Lemma nonvacuous_pop :
+  model_dag (w_order false) /\ fx_pop all_fixed = true /\
+  defined_sem 6 (w_order false) 0 "u" = Ok true /\ is_defined all_fixed 6 (w_order false) 0 "u" = Ok true /\
+  is_defined unfixed 6 (w_order false) 0 "u" = Ok false.
+Proof. split; [apply model_dag_w_order|]. repeat split; vm_compute; reflexivity. Qed.
